@@ -14,8 +14,8 @@ def run(c, props, spec):
         runs.append(("replay", ["run", "-replay", c.replay]))
     else:
         runs.append(("corpus", ["corpus", "-corpus", corpus]))
-        runs.append(("dfs", ["dfs", "-n", "1400" if quick else "30000", "-preempt", "2" if quick else "3"]))
-        runs.append(("random", ["run", "-n", "400" if quick else "6000"]))
+        runs.append(("dfs", ["dfs", "-n", "4200" if quick else "40000", "-preempt", "1" if quick else "2"]))
+        runs.append(("random", ["run", "-n", "600" if quick else "8000"]))
     for name, args in runs:
         out = c.harness("sched", args, timeout=900 if quick else 3000)
         if not out:
